@@ -232,6 +232,7 @@ func cmdCheck(args []string) int {
 		fmt.Printf("KNOWN-FINDING: property=%s %s %s\n", id, k, knownHit[k].Desc)
 	}
 	repDir := filepath.Join(verifDir, "replays", id)
+	os.RemoveAll(repDir) // replay files describe this run only
 	for _, nv := range fresh {
 		os.MkdirAll(repDir, 0o755)
 		path := filepath.Join(repDir, fileSafe(nv.key)+".json")
